@@ -343,8 +343,8 @@ def run_ids(pid, tier, seed, res, only=None):
     n = 200 if tier == "quick" else 3000
     items, where = [], []
     nb = 0
-    for _ in range(n):
-        prog = kvalue.gen_prog(rng, max_stmts=9 if tier == "quick" else 14, p_sub=0.25, p_flag=0.1)
+    for k_ in range(n if only is None else len(only)):
+        prog = kvalue.gen_prog(rng, max_stmts=9 if tier == "quick" else 14, p_sub=0.25, p_flag=0.1) if only is None else only[k_]
         kvalue._K.cur = Keys()
         try:
             d = kvalue.build_tawazi(prog, {})
@@ -497,6 +497,12 @@ def run(pid, tier, seed, res, p_sub=None, p_flag=None, only=None):
                         if not (st_[0] == "raise" and isinstance(st_[1], TypeError)):
                             for p_ in ("C01", "C14"):
                                 res.hit(p_, "monitor", "a call with %d arguments of a DAG with %d parameters gave %r instead of raising TypeError" % (len(many_), len(inputs_), st_), dict(base, kind="monitor"))
+                        if inputs_ and args:
+                            # keyword arguments are refused
+                            kwn_ = prog["params"][0]["name"]
+                            st_ = tz.run_controlled(lambda: d_(*list(args)[1:], **{kwn_: args[0]}) if False else d_(**{kwn_: args[0]}), tz.Ctl(free_run=True), is_async=is_async)
+                            if not (st_[0] == "raise" and type(st_[1]).__name__ == "TawaziUsageError"):
+                                res.hit("C01", "monitor", "a call with a keyword argument gave %r instead of TawaziUsageError" % (st_,), dict(base, kind="monitor"))
                         where.append(("bind", pi, ai, r, dict(expect=[0], show=["<too many arguments>"]), base))
                         items.append("kbind %s %s [%s] []" % (kvalue.res0_coq(dict(d_.results), ids_, r["keys"]), coqrun.nat_list(ids_.l(inputs_)), "; ".join(coq_term(a_, r["keys"]) for a_ in many_)))
             except BaseException as e_:  # noqa: BLE001
